@@ -131,6 +131,7 @@ impl Out {
     }
     pub fn op(&mut self, lhs: String, rhs: String) {
         self.n_ops += 1;
+        PROGRESS.fetch_add(1, std::sync::atomic::Ordering::Relaxed);
         match self.sink.as_mut() {
             Some(f) => {
                 use std::io::Write;
@@ -179,4 +180,47 @@ pub fn source_constants() -> &'static Vec<u32> {
         }
         v
     })
+}
+
+/// liveness counter for the watchdog: bumped by every finished operation and every `trace_op`
+pub static PROGRESS: std::sync::atomic::AtomicU64 = std::sync::atomic::AtomicU64::new(0);
+static CURRENT: std::sync::Mutex<String> = std::sync::Mutex::new(String::new());
+
+/// Record the operation that is about to run, so that the watchdog can name the input when a call of the
+/// real code never returns.
+pub fn trace_op(lhs: &str) {
+    PROGRESS.fetch_add(1, std::sync::atomic::Ordering::Relaxed);
+    if let Ok(mut c) = CURRENT.lock() {
+        c.clear();
+        c.push_str(lhs);
+    }
+}
+
+/// A call of the real code that never returns cannot be interrupted in-process.  The watchdog thread ends
+/// the harness when no operation has finished for `VERIF_STALL` seconds (default 120) and reports the
+/// operation that was running as a failing input of `prop` (C08: every call returns and the caller loop ends).
+pub fn start_watchdog(prop: String) {
+    let stall: u64 = std::env::var("VERIF_STALL").ok().and_then(|v| v.parse().ok()).unwrap_or(120);
+    std::thread::spawn(move || {
+        let mut last = PROGRESS.load(std::sync::atomic::Ordering::Relaxed);
+        let mut idle = 0u64;
+        loop {
+            std::thread::sleep(std::time::Duration::from_secs(1));
+            let now = PROGRESS.load(std::sync::atomic::Ordering::Relaxed);
+            if now != last {
+                last = now;
+                idle = 0;
+                continue;
+            }
+            idle += 1;
+            if idle >= stall {
+                let cur = CURRENT.lock().map(|c| c.clone()).unwrap_or_default();
+                println!("ORACLE-FAIL {} {} :: no operation finished for {} s: this call (or the caller loop around it) does not return", prop, cur, stall);
+                println!("HARNESS-HANG {}", cur);
+                use std::io::Write;
+                let _ = std::io::stdout().flush();
+                std::process::exit(3);
+            }
+        }
+    });
 }
